@@ -136,6 +136,10 @@ def decode(code):
             ops.append(["disable"])
         elif o == 9 and s == 3:
             ops.append(["run", 2 + a, 1 + a // 2])  # disable() is called from the iteration function of iteration 1 + a//2
+        elif o == 9 and s == 2:
+            # the process stalls for k periods during iteration `at` of the period (clock jumps in one step): the loop
+            # catches up on its time grid and the period goes on normally
+            ops.append(["run", 3 + a, None, [a % 3, 2 + (a + s) % 4]])
         elif o == 9:
             ops.append(["run", 1 + a])
         elif o == 10 and names:
@@ -355,10 +359,13 @@ class C14(Lab):
                         if c is not None and c != (dnames[0] if dnames else None):
                             selected_non_default = True
                         cut = op[2] if len(op) > 2 else None
-                        self.drive_run(sel, op[1], case, disable_at=cut)
+                        stall = op[3] if len(op) > 3 else None
+                        extra_it = self.drive_run(sel, op[1], case, disable_at=cut, stall=stall)
                         periods += 1
                         classes.add("run()")
-                        n_it = op[1] if cut is None else min(op[1], cut)
+                        n_it = (op[1] if cut is None else min(op[1], cut)) + extra_it
+                        if extra_it:
+                            classes.add("stall-inside-run")
                         if cut is not None and cut <= op[1]:
                             classes.add("disable-inside-run")
                         want = ([(c, "on_enable")] + [(c, "on_iteration")] * n_it + [(c, "on_disable")]) if c else []
@@ -394,7 +401,7 @@ class C14(Lab):
             err = None
             gc.collect()
 
-    def drive_run(self, sel, n, case, disable_at=None):
+    def drive_run(self, sel, n, case, disable_at=None, stall=None):
         """one autonomous period through selector.run() in a thread, n loop iterations"""
         from wpilib.simulation import DriverStationSim as DSS
         import hal.simulation as hs
@@ -436,11 +443,27 @@ class C14(Lab):
         th = threading.Thread(target=main, daemon=True)
         th.start()
         quiesce(seen)  # first iteration done
+        extra = 0
         for i in range(n - 1):
             if box.get("ended"):
                 break
             seen = self.gate.entries
             nxt = hs.getNextNotifierTimeout()
+            if stall is not None and i == stall[0]:
+                k = stall[1]
+                simenv.advance((nxt - simenv.now_us()) + (k - 1) * 20_000)
+                deadline = time.time() + 20
+                with self.gate.cv:
+                    while self.gate.entries < seen + k and not box.get("ended"):
+                        if time.time() > deadline:
+                            break  # fewer iterations than periods: judged by the caller through the call counts
+                        if not self.gate.cv.wait(0.05):
+                            nx = hs.getNextNotifierTimeout()
+                            if nx and nx < (1 << 62) and nx > simenv.now_us() and self.gate.entries > seen:
+                                break
+                            hs.stepTimingAsync(0)
+                extra = k - 1
+                continue
             simenv.advance(nxt - simenv.now_us())
             quiesce(seen)
         DSS.setEnabled(False)
@@ -456,6 +479,7 @@ class C14(Lab):
             raise HarnessError("selector.run() did not end after the DS left autonomous")
         if "exc" in box:
             raise exc_violation("C14", box["exc"], f"run(); case: {case}")
+        return extra
 
 
 LABS = {"C14": C14}
